@@ -26,7 +26,7 @@ for sv in "$@"; do
   if ! git apply $src/patch.diff 2>/dev/null; then echo "$sv: PATCH-DOES-NOT-APPLY" >> $out; rm -f $ddir/$demo; for f in $(cd $R/hide && find . -type f); do mv $R/hide/$f $f; done; continue; fi
   go build ./... >/dev/null 2>&1; rb=$?
   mv $ddir/$demo $R/demo.keep
-  suite=$(go test -vet=off -count=1 ./... 2>&1 | grep -E "^(FAIL|---|panic)" | grep -v "zipf\|TestAccess\|ExampleAccesses" | head -3 | tr '\n' ' ')
+  suite=$(go test -vet=off -count=1 ./... 2>&1 | grep -E "^(FAIL|ok)[[:space:]]" | grep "^FAIL" | grep -v zipf | head -3 | tr '\n' ' ')
   mv $R/demo.keep $ddir/$demo
   (eval "$dcmd" >/dev/null 2>&1); r1=$?
   rm -f $ddir/$demo
